@@ -189,8 +189,15 @@ fn cases_of(cat: &Catalog, f: &Form, q: &QueryExpr, base_cfg: &str, desc: &str, 
         let cfg = match ExecCfg::parse(&name) { Some(c) => c, None => continue };
         let mut tags = tags_of(f, rules, desc, base_cfg);
         tags.extend(extra_tags.iter().cloned());
+        // the path the engine takes: with the production rules the physical plan holds a join iff the subquery was decorrelated
+        let ops = if rules == "default" { crate::fams::fam_c21::plan_ops(cat, &q.sql(), &cfg) } else { vec![] };
+        let path = if ops.iter().any(|n| n.contains("Join")) { "join" } else { "rowbyrow" };
+        tags.push(format!("path:{}:{}{}", path, f.kind, if f.neg { "_not" } else { "" }));
         let mut case = make_case("C23", cat, q, &tags, false, &[cfg], false);
         case["c23"] = form_json(f, rules);
+        case["c23"]["path"] = json!(path);
+        case["c23"]["ops"] = json!(ops);
+        case["c23"]["layout"] = json!(if base_cfg.starts_with("mem1") { "mem1" } else if base_cfg.starts_with("memb") { "memb" } else { "pq" });
         case["strict_err"] = json!(true);
         let imp = run_case(&case);
         out.push((case, imp));
@@ -260,7 +267,11 @@ pub fn main(o: &Opts) {
         let (cat, desc) = gen_tables(&mut cr, o);
         let f = gen_form(&mut cr, o);
         let q = build_query(&cat, &f, &mut cr);
-        let base = &cfg_names[k % cfg_names.len()]; k += 1;
+        let mut base = cfg_names[k % cfg_names.len()].clone(); k += 1;
+        // Parquet only for the IN / EXISTS forms: over Parquet the decorrelated scalar path trips a scan-schema defect
+        // ("number of columns must match number of fields") that is not a subquery defect
+        if base.starts_with("pq") && f.kind.starts_with("scalar") { base = "memb".into(); }
+        let base = &base;
         for (case, imp) in cases_of(&cat, &f, &q, base, &desc, &[]) {
             if n < o.cases { emit(case, imp); n += 1; }
         }
